@@ -61,6 +61,9 @@ func init() {
 			{Funcs: `^datacodec\.convertFrom`, Classes: safetyClasses},
 			{Funcs: `^\(\*datacodec\.[a-zA-Z]+Codec\)\.createInjector\$\d+$`, Classes: safetyClasses},
 			{Funcs: `^datacodec\.(adjustSliceLength|readCollectionSize)$`, Classes: safetyClasses},
+			// error paths format what they rejected: a String()/Error() method that hands its own receiver to fmt with a
+			// verb that calls String() recurses until the stack overflows (not recoverable)
+			{Funcs: `^\(\*?(primitive|message|frame|datatype|segment|datacodec)\.[A-Za-z]+\)\.(String|Error)$`, Except: `^\(\*primitive\.UUID\)\.String$`, NoCt: true, Classes: []string{"panic"}},
 		},
 		Assume: []string{
 			"stack size: only recursion depth is bounded (each ReadDataType level consumes input), not stack bytes",
@@ -92,7 +95,7 @@ func init() {
 func init() {
 	reg(&PropSpec{ID: "C19", Title: "Declared constants and validity checks agree; capability tables match specs", DesignRef: "DESIGN.md §4 C19",
 		Groups: []Group{
-			{Funcs: `^\(primitive\.[A-Za-z]+\)\.[A-Za-z0-9]+$|^primitive\.Check`, OnlyCt: true, Classes: []string{"post", "pre", "cover", "unwind", "inv-init", "inv-step"}},
+			{Funcs: `^\(primitive\.[A-Za-z]+\)\.[A-Za-z0-9]+$|^primitive\.Check`, OnlyCt: true, Classes: []string{"post", "pre", "cover", "unwind", "inv-init", "inv-step", "panic"}},
 		},
 		Assume: []string{
 			"capability truth tables were transcribed by hand from specs/*.spec (sections on query flags, result metadata, error bodies, framing) - the transcription is the oracle",
